@@ -46,6 +46,13 @@ def run(tier):
     rep.cond("c12.comments_are_exactly_skipped", "real ignorable objects tabulated on comment exemplars",
              "confirmed" if not G.ign_anomalies else "counterexample", 0.0,
              "%d comment exemplars x %d ignorable expressions" % (len(gram.COMMENTS), len(G.ignorables)))
+    # the repository's own test inputs, re-laid-out on the real parser (validation corpus, see DESIGN 7.3)
+    from vlib.common import REPO
+    tc = time.time()
+    nv = len(rep.violations)
+    ncorp = gcommon.corpus_layout_check(rep, G, REPO, limit=150 if quick else 1000)
+    rep.cond("c12.fixture_declarations_relayout", "real parser on 7 layouts of each fixture declaration (validation corpus)",
+             "confirmed" if len(rep.violations) == nv else "counterexample", time.time() - tc, "%d declarations of tests/fixtures/*.i" % ncorp)
     tok, length = gram.mk_stream(N)
     t0 = time.time()
     try:
